@@ -36,7 +36,7 @@ SITES = [("put", "LOCK"), ("get", "HINT"), ("get", "META"), ("head", "META"), ("
 
 
 def gen(rng: random.Random, tier: str, idx: int) -> dict:
-    n = rng.randint(2, 3)
+    n = rng.randint(2, 3 if tier == "quick" else 4)
     actors = []
     for i in range(n):
         ops = []
